@@ -453,10 +453,10 @@ TRACE_ENVS = ENVS + [
 ]
 
 
-def trace_line(threads, budget, permille, env, resolution, threshold, prange, goal_bias):
+def trace_line(threads, budget, permille, env, resolution, threshold, prange, goal_bias, gate=0):
     dim = env["dim"]
     t = ["prrt", str(threads), str(budget), str(permille), f2b(resolution), f2b(threshold), f2b(prange) if prange else "0",
-         f2b(goal_bias), "rv", str(dim)] + [f2b(0.0)] * dim + [f2b(1.0)] * dim
+         f2b(goal_bias), str(gate), "rv", str(dim)] + [f2b(0.0)] * dim + [f2b(1.0)] * dim
     t += ["boxes", str(dim), str(len(env["boxes"]))]
     for lo, hi in env["boxes"]:
         t += [f2b(x) for x in lo] + [f2b(x) for x in hi]
@@ -467,10 +467,10 @@ def trace_line(threads, budget, permille, env, resolution, threshold, prange, go
 def parse_trace_line(line):
     t = line.split()
     P = {"threads": int(t[1]), "budget": int(t[2]), "permille": int(t[3]), "resolution": b2f(t[4]), "threshold": b2f(t[5]),
-         "range": b2f(t[6]), "goal_bias": b2f(t[7])}
-    assert t[8] == "rv"
-    dim = int(t[9])
-    i = 10 + 2 * dim
+         "range": b2f(t[6]), "goal_bias": b2f(t[7]), "gate": int(t[8])}
+    assert t[9] == "rv"
+    dim = int(t[10])
+    i = 11 + 2 * dim
     assert t[i] == "boxes"
     k = int(t[i + 2])
     i += 3
@@ -498,6 +498,14 @@ def trace_ops(rng, tier):
         threshold = rng.choice([0.05, 0.05, 0.2, 1e-9, 0.0])          # 0.0: `dist < 0` never holds, always approximate
         resolution = rng.choice([0.02, 0.02, 0.01, 0.2])
         ops.append(trace_line(threads, budget, permille, env, resolution, threshold, prange, bias))
+    # directed schedule for the check-then-act window of the approximate-solution update: never satisfied (threshold 0),
+    # short runs (a wrong last writer is not repaired by a later, closer state), solution updates started in pairs
+    for i in range(16 if tier == "quick" else 120):
+        env = TRACE_ENVS[rng.choice([3, 3, 3, 4])]             # free space: every motion is valid, every iteration updates
+        threads = rng.choice([2, 2, 3, 4])
+        # budget ~ number of workers: each gets one or two iterations, all of them record-setting (approxdif starts at
+        # +infinity), and nothing later repairs a wrong last writer
+        ops.append(trace_line(threads, rng.choice([2, 3, 4, 6]), 0, env, 0.02, 0.0, rng.choice([0, 0.5, 3.0]), 0.0, gate=1000))
     return ops
 
 
@@ -505,6 +513,9 @@ def run_trace(ck, hbin, seed, op_line, timeout=240):
     script = ["conctrace %d" % seed, op_line]
     out, rc, err = ck.run_bin(hbin, script, timeout=timeout)
     res = {"script": script, "out": out or [], "rc": rc, "err": err or "", "op": op_line, "model": None}
+    if op_line.startswith("prrtrace"):
+        res["events"] = []
+        return res
     ev = [l for l in res["out"] if l[:2] in ("N ", "C ", "A ", "G ", "E ") or l.startswith("prrt ")]
     if ev and ev[0].startswith("prrt ") and rc == 0:
         m, rc2, err2 = ck.run_bin(ck.driver("drv_conc"), ev, timeout=timeout)
@@ -538,9 +549,28 @@ def judge_trace(op_line, res):
     """returns (kind, what, info): kind None = fine, 'oracle' = the real run violates the spec (independent of the model),
     'correspondence' = the run is not an execution of the Lean model"""
     info = {}
+    out = res["out"]
+    if op_line.startswith("prrtrace"):
+        # directed schedule: every worker passes the unlocked pre-check, then they take sol->lock one after the other;
+        # approxdif/approxsol must end as the closest added state in every round (prrt_approx_is_closest)
+        if res["rc"] != 0 or not out or not out[0].startswith("prrtrace "):
+            return "oracle", "no output (rc=%s): %s" % (res["rc"], res["err"][-300:]), info
+        d = kv(out[0])
+        info.update(directed=1, synced=int(d["synced"]), rounds=int(d["rounds"]), workers=int(d["workers"]), status="directed")
+        if int(d["wrong"]) != 0:
+            fw = d["first_wrong"]
+            try:
+                rnd, rest = fw.split(":", 1)
+                ds, fin = rest.split("->")
+                txt = "round %s: workers added states at goal distances %s, approxdif ended as %.17g (closest: %.17g)" % (
+                    rnd, [b2f(x) for x in ds.split(",") if x], b2f(fin), min(b2f(x) for x in ds.split(",") if x))
+            except ValueError:
+                txt = fw
+            return "oracle", ("in %s of %s rounds the approximate solution is not the closest added state after all workers "
+                              "passed the pre-check and took sol->lock in turn; %s" % (d["wrong"], d["rounds"], txt)), info
+        return None, None, info
     P = parse_trace_line(op_line)
     dim = P["dim"]
-    out = res["out"]
     if res["rc"] != 0 or not out or not out[-1].startswith("Z "):
         return "oracle", "no complete output (rc=%s): %s" % (res["rc"], res["err"][-300:]), info
     z = kv(out[-1])
@@ -1086,6 +1116,8 @@ def run(ck):
 
     htrace = build_trace(ck)
     trace_jobs = [l for _, lines in trace_corpus() for l in lines] + trace_ops(ck.rng.fork("prrt-trace"), ck.tier)
+    r = ck.rng.fork("prrt-race")
+    trace_jobs += ["prrtrace %d %d" % (10 if ck.tier == "quick" else 40, w) for w in (2, r.range(3, 5), r.range(6, 16))]
 
     results = []
     trace_results = []
@@ -1157,6 +1189,17 @@ def run(ck):
     trace_failures = {}
     for res in trace_results:
         kind, what, info = judge_trace(res["op"], res)
+        if res["op"].startswith("prrtrace"):
+            ck.traces_validated += 1
+            ck.count("runs:plain:prrtrace")
+            ck.count("prrtrace-rounds", info.get("rounds", 0))
+            ck.count("prrtrace-rounds-synced", info.get("synced", 0))
+            ck.count("threads:%d" % info.get("workers", 0))
+            ck.case(("prrtrace", res["op"]), kind is None and info.get("synced", 0) > 0)
+            if kind is not None:
+                cur = trace_failures.get(("directed",))
+                trace_failures[("directed",)] = (cur[:4] + (cur[4] + 1,)) if cur else (res, "directed-" + kind, what, info, 1)
+            continue
         P = parse_trace_line(res["op"])
         ck.traces_validated += 1
         ck.count("runs:plain:prrt-trace")
@@ -1166,6 +1209,9 @@ def run(ck):
         ck.count("trace-goal-bias:%.2g" % P["goal_bias"])
         ck.count("trace-threshold:%.2g" % P["threshold"])
         ck.count("trace-dim:%d" % P["dim"])
+        if P["gate"]:
+            ck.count("trace-gated-runs")
+            ck.count("trace-paired-solution-updates", int(kv(res["out"][-1]).get("paired", 0)) if res["out"] and res["out"][-1].startswith("Z ") else 0)
         ck.count("trace-status:%s" % info.get("status"))
         ck.count("trace-report:%s" % info.get("report"))
         for k, v in (info.get("counts") or {}).items():
